@@ -85,6 +85,10 @@ Theorem C12_src_premature_end_is_error : forall flen off done,
   x_block_job_zero_is_end flen off done = (flen <=? off + done).
 Proof. reflexivity. Qed.
 
+Theorem C12_src_size_before_copy_is_queued :
+  In (0, [0; 1]) x_walker_dispatch.
+Proof. vm_compute. now left. Qed.
+
 Print Assumptions C12_batching_sound.
 Print Assumptions C12_delivery_is_prefix_monotone.
 Print Assumptions C12_copy_bytes_reports_le_len.
@@ -94,3 +98,4 @@ Print Assumptions C12_prefix_bound_delivered.
 Print Assumptions C12_src_send_condition.
 Print Assumptions C12_size_before_copied.
 Print Assumptions C12_src_premature_end_is_error.
+Print Assumptions C12_src_size_before_copy_is_queued.
